@@ -423,4 +423,65 @@ theorem rowOf_mkRow (S : Num α) (px : α) (k : Nat) (a nn : List (Pt α)) (tm :
 
 end rows
 
+/-! ### any correct neighbour search gives the model's table (no ties); tables of lists without a common tomogram -/
+section anytree
+variable [CommRing α] [LinearOrder α]
+
+/-- `nb` answers every query of a common tomogram with a list meeting `KnnSpec`, and no query has two candidates at
+the same distance -/
+def CorrectSearch (nb : Pt α → List (Pt α) → List Nat) (k : Nat) (a nn : List (Pt α)) : Prop :=
+  ∀ tm, ∀ q ∈ subset tm a,
+    KnnSpec k (subset tm nn).length (keyOf q (subset tm nn)) (nb q (subset tm nn)) ∧
+    NoTies (subset tm nn).length (keyOf q (subset tm nn))
+
+omit [CommRing α] [LinearOrder α] in
+theorem tomoRows_eq_with (S : Num α) [Add α] [Sub α] [Mul α] [Neg α] [OfNat α 0] [OfNat α 1] [LE α] [DecidableLE α]
+    (px : α) (k : Nat) (a nn : List (Pt α)) (tm : Int) :
+    tomoRows S px k a nn tm = tomoRowsWith (neighbours k) S px k a nn tm := rfl
+
+theorem tomoRowsWith_eq (nb : Pt α → List (Pt α) → List Nat) (S : Num α) (px : α) (k : Nat) (a nn : List (Pt α))
+    (h : CorrectSearch nb k a nn) (tm : Int) :
+    tomoRowsWith nb S px k a nn tm = tomoRows S px k a nn tm := by
+  unfold tomoRowsWith tomoRows
+  simp only [List.map_map]
+  congr 1
+  funext i
+  refine List.map_congr_left ?_
+  intro q hq
+  have := h tm q hq
+  simp only [Function.comp]
+  rw [knn_unique' this.2 this.1 (knnIdx_spec' k _ _)]
+  rfl
+
+theorem nnStatsWith_eq' (nb : Pt α → List (Pt α) → List Nat) (S : Num α) (px : α) (k : Nat) (a nn : List (Pt α))
+    (h : CorrectSearch nb k a nn) : nnStatsWith nb S px k a nn = nnStats S px k a nn := by
+  unfold nnStatsWith nnStats
+  congr 1
+  funext tm
+  exact tomoRowsWith_eq nb S px k a nn h tm
+
+omit [CommRing α] [LinearOrder α] in
+theorem features_nil_of_disjoint (ta tn : List Int) (h : ∀ t ∈ ta, t ∉ tn) : features ta tn = [] := by
+  unfold features
+  have : ta.filter (fun t => tn.contains t) = [] := by
+    rw [List.filter_eq_nil_iff]
+    intro t ht
+    simpa using h t ht
+  rw [this]
+  rfl
+
+omit [CommRing α] [LinearOrder α] in
+theorem motlSubset_single (t : Int) (l : List (Pt α)) : motlSubset [t] l = subset t l := by
+  simp [motlSubset, subset]
+
+omit [CommRing α] [LinearOrder α] in
+theorem mem_motlSubset (vals : List Int) (l : List (Pt α)) (p : Pt α) :
+    p ∈ motlSubset vals l ↔ p ∈ l ∧ p.tomo ∈ vals := by
+  simp only [motlSubset, List.mem_flatMap, List.mem_filter, beq_iff_eq]
+  constructor
+  · rintro ⟨v, hv, hp, e⟩; exact ⟨hp, e ▸ hv⟩
+  · rintro ⟨hp, hv⟩; exact ⟨p.tomo, hv, hp, rfl⟩
+
+end anytree
+
 end CryoCat.C18
